@@ -95,7 +95,7 @@ def run_pass(pid, cfg, pas, tier, replay_rec, deadline_s, workdir):
         log = open(out + ".log", "w")
         procs.append((subprocess.Popen(cmd, stdout=log, stderr=subprocess.STDOUT, env=env), out, log, cmd))
     res = []
-    hard_limit = deadline_s * 3 + 600
+    hard_limit = deadline_s * 2 + 180
     t0 = time.time()
     for p, out, log, cmd in procs:
         try:
